@@ -390,11 +390,12 @@ def simulate(plan):
             concrete["steps"].append(cst)
             wd = SimWorld.digest(after)
             stats["world_states"].append(wd)
-            history.append({"argv": op["argv"], "outcome": o.brief(), "world": wd})
+            history.append({"op": " ".join(op["argv"][1:3] + op["argv"][5:9]), "argv": op["argv"], "outcome": o.brief(), "world": wd,
+                            "key": o.key()})
     finally:
         world.destroy()
     res.trace = {"kind": "c19-plan", "plan": concrete, "files": files, "history": history}
-    res.digest = digest_of(history)
+    res.digest = digest_of([[h.get("op"), h.get("key"), h.get("world")] for h in history])
     res.nontrivial = wrote
     res.sample = {"input": in_text[:600], "history": history}
     return res
